@@ -14,6 +14,7 @@ import os
 import struct
 
 from vlib import filegen as G
+from vlib import isa as visa
 from vlib.runner import Partial, campaign, shard_seed, bucket_of_exception
 
 ID = "C15"
@@ -119,24 +120,72 @@ def check_image(task, data, ref, page, relocs=None, label=""):
             fails.append(("pc", "%sprogram counter %s, entry point %#x" % (label, pc, ref["e_entry"])))
     except Exception as x:
         fails.append((bucket_of_exception("raise:pc", x), repr(x)))
-    # instruction fetch returns the file's bytes
+    # instruction fetch returns the file's bytes (also across the boundary of two abutting segments)
+    def bytes_at(a, n):
+        out = bytearray()
+        for va in range(a, a + n):
+            own = [q for q in loads if q["p_vaddr"] <= va < q["p_vaddr"] + max(q["p_memsz"], q["p_filesz"])]
+            if len(own) != 1 or any(r <= va < r + psz for r in relocs):
+                return None
+            q = own[0]
+            i = va - q["p_vaddr"]
+            if i < q["p_filesz"]:
+                fo = q["p_offset"] + i
+                if fo >= len(data):
+                    return None
+                out.append(data[fo])
+            else:
+                if any(lo <= va < hi for j, (lo, hi) in enumerate(ext_range(x) for x in loads) if loads[j] is not q):
+                    return None
+                out.append(0)
+        return bytes(out)
+
+    pos = []
     for p in loads:
-        if not (p["p_flags"] & 1) or p["p_filesz"] < 16:
+        n = p["p_filesz"]
+        if n < 4 or n > 0x400000:
             continue
-        for d in (0, 5, p["p_filesz"] // 2):
-            a = p["p_vaddr"] + d
-            if any(r <= a + 16 and a < r + psz for r in relocs):
-                continue
+        pos += [p["p_vaddr"] + d for d in sorted({0, 5 % n, n // 2, n - 1, n - 2, n - 3, n - 5}) if 0 <= d < n]
+    try:
+        fails += check_fetch(task, bytes_at, pos[:24], label)
+    except Exception as x:
+        fails.append((bucket_of_exception("raise:fetch", x), repr(x)))
+    return fails
+
+
+def check_fetch(task, bytes_at, positions, label=""):
+    """fetching an instruction at an address decodes exactly the bytes the file places there: the reference is the
+    task's own decoder applied directly to the file's bytes for that address (bytes_at(a, n) -> bytes | None when some
+    byte is not defined by the file, owned by two segments, or a relocation slot)"""
+    fails = []
+    dis = task.cpu.disassemble
+    for a in positions:
+        window = None
+        for n in (16, 12, 8, 6, 4, 3, 2, 1):
+            window = bytes_at(a, n)
+            if window is not None:
+                break
+        if window is None:
+            continue
+        try:
             try:
-                i = task.read_instruction(a)
-            except Exception as x:
-                continue  # decoder crashes are C17's business
-            if i is None or not hasattr(i, "bytes"):
+                dis._disassembler__i = None
+            except Exception:
+                pass
+            with visa.time_guard(5):
+                exp = dis(window)
+            if exp is None or exp.length > len(window):
                 continue
-            fo = p["p_offset"] + d
-            if d + i.length <= p["p_filesz"] and i.bytes != data[fo: fo + i.length]:
-                fails.append(("fetch", "%sread_instruction(%#x).bytes=%s, file has %s" % (label, a, i.bytes.hex(), data[fo: fo + i.length].hex())))
-        break
+            with visa.time_guard(5):
+                got = task.read_instruction(a)
+        except (Exception, visa.HarnessTimeout):
+            continue  # decoder crashes are C17's business
+        if got is None or not hasattr(got, "bytes"):
+            fails.append(("fetch-none", "%sread_instruction(%#x) returns %r, the file's bytes %s decode as %s" % (label, a, got, window[: exp.length].hex(), exp.mnemonic)))
+        elif got.bytes != exp.bytes:
+            fails.append(("fetch", "%sread_instruction(%#x).bytes=%s, the file's bytes there decode as %s (%s)" % (label, a, got.bytes.hex(), exp.bytes.hex(), exp.mnemonic)))
+        if fails:
+            break
     return fails
 
 
@@ -293,6 +342,19 @@ def check_case(case):
                 if mask[0] != 1 or got[0] != b:
                     fails.append(("%s-image" % k, "byte at %#x is %s, record has %#x" % (a, got[0] if mask[0] else "unmapped", b)))
                     break
+            # fetches at the start and near the end of every data record (the next record may abut)
+            pos = []
+            for (rt, a, d) in recs:
+                if (k == "hex" and rt == 0) or (k == "srec" and rt in (1, 2, 3)):
+                    pos += [a + x for x in sorted({0, len(d) - 1, len(d) - 2, len(d) - 3}) if 0 <= x < len(d)]
+
+            def bytes_at(a, n):
+                if all((a + i) in model for i in range(n)):
+                    return bytes(model[a + i] for i in range(n))
+                return None
+
+            if not fails:
+                fails += [("%s-%s" % (k, b_), d_) for b_, d_ in check_fetch(t, bytes_at, pos[:40])]
             return fails
     except Exception as x:
         return [(bucket_of_exception("raise:%s" % k, x), repr(x))]
